@@ -539,6 +539,39 @@ def build (pre : Option (List Pos × List SysWord)) (rows : List Row) : Outcome 
         let t := writePosTable { r with entries := es }
         .ok ⟨t.1, t.2, es.map entryWord⟩
 
+/-! ### `DictBuilder::new_user(dic)`: what the builder takes from the loaded dictionary `dic`
+
+Two versions of `new_user` + `LexiconReader::preload_pos` are modelled; the harness names the one of the tree it is
+built against on every `stack` line (`pre=all|sys`).
+
+* `all` (the pinned tree, kept verbatim): `preload_pos(dic.grammar())` inserts EVERY entry of `dic.grammar().pos_list`
+  — also those registered at load time by OOV plugins — and `start_pos` is their count;
+* `sysOnly` (repair of finding P1): `preload_pos(dic.grammar(), dic.lexicon().num_system_pos())` inserts only the
+  first `num_system_pos` entries (`pos_list.iter().take(num_system_pos)`), i.e. the POS the loader will treat as
+  system POS when the compiled dictionary is loaded. -/
+inductive PreVariant where
+  | all
+  | sysOnly
+deriving Repr, DecidableEq
+
+/-- the loaded dictionary handed to `new_user`: `grammar().pos_list`, `lexicon().num_system_pos` (the field
+`LexSet.numSystemPos`), and the words `BinDictResolver::new` reads -/
+structure Base where
+  posList : List Pos
+  numSystemPos : Nat
+  words : List SysWord
+deriving Repr
+
+/-- the `pre` argument of `build` the two versions of `new_user` produce -/
+def preOf (v : PreVariant) (b : Base) : List Pos × List SysWord :=
+  match v with
+  | .all => (b.posList, b.words)
+  | .sysOnly => (b.posList.take b.numSystemPos, b.words)
+
+/-- `DictBuilder::new_user(base)` + `read_lexicon` + `resolve` + `compile` -/
+def buildUser (v : PreVariant) (b : Base) (rows : List Row) : Outcome Built :=
+  build (some (preOf v b)) rows
+
 /-- `pos_list_parser`: reads `count` rows; a table with a different number of rows is not readable as written -/
 def readPosTable (b : Built) : Outcome (List Pos) :=
   if b.posRows.length = b.posCount then .ok b.posRows else .err .garbled
